@@ -70,25 +70,44 @@ pub fn check(case: &C18Case) -> CaseOutcome
     o.class(if case.check_mode { "mode-check" } else { "mode-edit" });
     o.class(if case.tree.structured { "structured" } else { "unstructured" });
     o.class(if case.tree.cache { "cache-on" } else { "cache-off" });
-    let mut plans: Vec<(i32, u64)> = Vec::new();
+    // (signal, boundary, optional second signal at a later boundary)
+    let mut plans: Vec<(i32, u64, Option<(i32, u64)>)> = Vec::new();
     match case.only
     {
-        Some(p) => plans.push(p),
+        Some(p) => plans.push((p.0, p.1, None)),
         None =>
         {
             for s in [15, 2]
             {
                 for k in 1..=k_total + 1
                 {
-                    plans.push((s, k));
+                    plans.push((s, k, None));
+                }
+            }
+            // a second stop request while the first is being honoured must not kill the process either
+            for k in d..=k_total
+            {
+                let (s1, s2) = if k % 2 == 0 { (15, 2) } else { (2, 15) };
+                plans.push((s1, k, Some((s2, k + 1 + (k % 3)))));
+                if k % 4 == 0
+                {
+                    plans.push((s1, k, Some((s1, k + 1))));
                 }
             }
         },
     }
     let mut seen = std::collections::BTreeSet::new();
-    for (sig, k) in &plans
+    for (sig, k, second) in &plans
     {
-        let plan = format!("sig:{}:{}", k, sig);
+        let plan = match second
+        {
+            None => format!("sig:{}:{}", k, sig),
+            Some((s2, k2)) => format!("sig:{}:{};sig:{}:{}", k, sig, k2, s2),
+        };
+        if second.is_some()
+        {
+            o.class("two-signals");
+        }
         let fr = fault_run(&tree, case.check_mode, Some(plan.clone()), None);
         o.evals += 1;
         let delivered = fr.run.trace.iter().any(|t| t.kind == "SIGNAL");
@@ -98,7 +117,18 @@ pub fn check(case: &C18Case) -> CaseOutcome
             continue;
         }
         let op_desc = ops.iter().find(|t| t.k == *k).map(|t| format!("{} {}", t.kind, t.path.rsplit('/').next().unwrap_or(""))).unwrap_or_else(|| "after the last operation".into());
-        let ctx = format!("{} before op {} ({}) of a {} run", sig_name(*sig), k, op_desc, if case.check_mode { "--check" } else { "edit" });
+        let ctx = format!(
+            "{} before op {} ({}){} of a {} run",
+            sig_name(*sig),
+            k,
+            op_desc,
+            match second
+            {
+                Some((s2, k2)) => format!(" and {} before op {}", sig_name(*s2), k2),
+                None => String::new(),
+            },
+            if case.check_mode { "--check" } else { "edit" }
+        );
         let mut fail = |o: &mut CaseOutcome, sig_: String, msg: String| {
             if seen.insert(sig_.clone())
             {
@@ -289,7 +319,7 @@ pub fn run(env: &Env, rec: &Recorder) -> (String, Vec<&'static str>)
     pbt_opts(env, rec, "signals", env.cases(40, 1000), 30, &strategy, &check);
     rec.set_exhaustive(true);
     (
-        "trees of 2-8 source files (some needing insertions, some not), both modes, both styles, cache on/off, lock absent/consistent; a recording run gives the K counted operations; then for each of SIGTERM and SIGINT and EVERY boundary k in 1..=K+1 the signal is sent to the process immediately before operation k (LD_PRELOAD shim), each on a fresh copy. Oracle from the start of source discovery on: the process exits by itself; after the signal it starts work on at most one more source file; exit 0 only if nothing was left to do (edit: a following --check passes; check: no reference missing and the last file had been reached); every source file untouched or a complete update; with the cache on and >= 1 file updated a parsable lock with next > every ID inserted. Before discovery: the process may be killed but then nothing is modified. exhaustive=true: all boundaries of each generated tree. Non-trivial = distinct (tree, mode, signal, boundary) strictly between the first and last source-file operation on a tree with >= 2 files needing work".to_string(),
+        "trees of 2-8 source files (some needing insertions, some not), both modes, both styles, cache on/off, lock absent/consistent; a recording run gives the K counted operations; then for each of SIGTERM and SIGINT and EVERY boundary k in 1..=K+1 the signal is delivered immediately before operation k (LD_PRELOAD shim, thread-directed so that the handler has run before the operation starts), plus, for every boundary from the start of discovery on, a pair of signals (the second one 1-3 operations later), each on a fresh copy. Oracle from the start of source discovery on: the process exits by itself; after the signal it starts work on at most one more source file; exit 0 only if nothing was left to do (edit: a following --check passes; check: no reference missing and the last file had been reached); every source file untouched or a complete update; with the cache on and >= 1 file updated a parsable lock with next > every ID inserted. Before discovery: the process may be killed but then nothing is modified. exhaustive=true: all boundaries of each generated tree. Non-trivial = distinct (tree, mode, signal, boundary) strictly between the first and last source-file operation on a tree with >= 2 files needing work".to_string(),
         vec!["signals are delivered synchronously at libc call boundaries (kill(getpid()) from the interposer); asynchronous delivery inside a system call is not enumerated", "the harness resets SIGINT/SIGTERM to SIG_DFL in the child so that an inherited SIG_IGN cannot mask a missing handler"],
     )
 }
